@@ -16,7 +16,7 @@ static void f32ev(void* c, int slot, float f) {
   uint32_t u;
   memcpy(&u, &f, 4);
   bool n = ((u >> 23) & 255) == 255 && (u & 0x7fffff);
-  put(c, slot, n ? 0 : u, n, NULL, 0);
+  put(c, slot, n ? 0 : u, n, NULL, n ? u : 0); /* len carries the raw bits of a NaN: recorded, never compared */
 }
 static void c_uint8(void* c, uint8_t v) { put(c, S_UINT8, v, 0, 0, 0); }
 static void c_uint16(void* c, uint16_t v) { put(c, S_UINT16, v, 0, 0, 0); }
@@ -41,7 +41,7 @@ static void c_float8(void* c, double d) {
   uint64_t u;
   memcpy(&u, &d, 8);
   bool n = ((u >> 52) & 2047) == 2047 && (u & 0xfffffffffffffull);
-  put(c, S_FLOAT8, n ? 0 : u, n, NULL, 0);
+  put(c, S_FLOAT8, n ? 0 : u, n, NULL, n ? u : 0);
 }
 static void c_undef(void* c) { put(c, S_UNDEF, 0, 0, 0, 0); }
 static void c_null(void* c) { put(c, S_NULL, 0, 0, 0, 0); }
@@ -93,6 +93,7 @@ void vf_expected_event(const uint8_t* b, size_t p, const rhead* h, vf_event* e) 
   }
 }
 bool vf_event_equal(const vf_event* a, const vf_event* b) {
+  if (a->isnan && b->isnan) return a->slot == b->slot; /* NaN-ness, not payload (DESIGN 6.1) */
   return a->slot == b->slot && a->val == b->val && a->isnan == b->isnan && a->ptr == b->ptr && a->len == b->len;
 }
 void vf_event_render(const vf_event* e, const uint8_t* base, vf_sb* o) {
